@@ -11,10 +11,8 @@ Currently supports the zkinterface and zkifbellman backends
 """
 
 # Load Poseidon parameters
-try:
-    backend = os.environ["PYSNARK_BACKEND"]
-except KeyError:
-    backend = "nobackend"
+# parameters of the backend actually selected by pysnark.runtime (not of the environment variable)
+backend = runtime.backend_name
 
 if backend in poseidon_constants:
     constants = poseidon_constants[backend]
